@@ -165,7 +165,14 @@ def _call(step, env):
     except HarnessError:
         raise
     except Exception as e:
-        return ("exc", type(e).__name__, str(e)[:200])
+        # where = the innermost library function the exception came out of (part of the outcome: the same exception type raised
+        # by another mechanism is another outcome)
+        where = ""
+        root = os.path.realpath(REPO) + os.sep
+        for fr in traceback.extract_tb(e.__traceback__):
+            if os.path.realpath(fr.filename).startswith(root):
+                where = fr.name
+        return ("exc", type(e).__name__, str(e)[:200], where)
 
 
 def _run_in_child(fn):
